@@ -285,7 +285,53 @@ static void gen_pair(Out& out, Rng& g, bool with_lh) {
     std::vector<IPoly> ia, ib;
     std::string scen;
     auto& pool = pools.keyholes[S];
-    switch (g.below(9)) {
+    switch (g.below(10)) {
+        case 9: {
+            // rectangles with integer corners on a tiny grid: many coincident / collinear edges, full-height inclusions, notches
+            // whose mouth lies on a straight edge of the result (Clipper joins the collinear edges across the mouth)
+            scen = "grid-rectangles";
+            if (g.coin()) {
+                // structured: a strip, a cell spanning the strip's full height, a block sharing the strip's far edge over the cell
+                int64_t h = g.range(1, 2), x0 = g.range(0, 2), len = g.range(4, 7), y0 = g.range(2, 4);
+                int64_t ca = x0 + g.range(1, len - 2), cb = ca + g.range(1, std::max<int64_t>(1, x0 + len - 1 - ca));
+                std::vector<IPoly> strip{g_rect(x0, y0, len, h)};
+                std::vector<IPoly> other{g_rect(ca, y0, cb - ca, h), g_rect(std::min<int64_t>(ca - g.range(0, 2), ca), y0 + h, g.range(cb - ca, len), g.range(1, 3))};
+                if (g.coin()) other.push_back(g_rect(g.range(0, 2), g.range(0, 2), g.range(1, 3), g.range(1, 5)));
+                if (g.coin()) strip.push_back(g_rect(x0, y0 + h, g.range(1, len), g.range(1, 2)));  // abutting second rectangle
+                int tr = (int)g.below(8);  // one of the 8 symmetries of the square
+                auto sym = [&](IPoly& q) {
+                    for (auto& v : q) {
+                        int64_t x = v.first, y = v.second;
+                        if (tr & 1) x = 9 - x;
+                        if (tr & 2) y = 9 - y;
+                        if (tr & 4) std::swap(x, y);
+                        v.first = x;
+                        v.second = y;
+                    }
+                };
+                for (auto& q : strip) { sym(q); random_orient(g, q); }
+                for (auto& q : other) { sym(q); random_orient(g, q); }
+                ia = strip;
+                ib = other;
+                if (g.coin()) std::swap(ia, ib);
+            } else {
+                int64_t G = g.range(5, 8);
+                int na = 1 + (int)g.below(4), nb = 1 + (int)g.below(4);
+                auto rr = [&]() {
+                    int64_t x = g.range(0, G - 1), y = g.range(0, G - 1);
+                    IPoly q = g_rect(x, y, g.range(1, G - x), g.range(1, G - y));
+                    random_orient(g, q);
+                    return q;
+                };
+                for (int i = 0; i < na; i++) ia.push_back(rr());
+                for (int i = 0; i < nb; i++) ib.push_back(rr());
+            }
+            // cells of 8 x 8 database units: a wrong cell is far wider than the one-unit guard band of the oracle
+            for (auto& q : ia) for (auto& v : q) { v.first *= 8; v.second *= 8; }
+            for (auto& q : ib) for (auto& v : q) { v.first *= 8; v.second *= 8; }
+            span = 96;
+            lopsided = 0;
+        } break;
         case 8: {
             // three nesting levels in the result (outer contour -> hole -> island): a ring given as ONE polygon whose
             // hole hangs on a zero-width slit, and a small island inside the hole
